@@ -33,6 +33,7 @@ type caseInfo struct {
 	nthRules  bool // some rule depends on the call count
 	handlers  bool
 	detach    bool // some handler detaches a binding
+	disposes  bool // the history disposes the machine
 }
 
 func parseCaseInfo(c Case, sch *Schema) caseInfo {
@@ -43,6 +44,8 @@ func parseCaseInfo(c Case, sch *Schema) caseInfo {
 			continue
 		}
 		switch t[0] {
+		case "dispose":
+			ci.disposes = true
 		case "bind":
 			fmt.Sscan(t[1], &ci.nbind)
 			ci.handlers = ci.nbind > 0
@@ -432,6 +435,71 @@ func Monitor(prop string, c Case, sch *Schema, obs []OpObs) []Failure {
 						add(li, "", "Executed Remove but %d is still active", x)
 					}
 				}
+			}
+		}
+	case "C04":
+		// sequential side of the queue: no transition starts inside another one,
+		// ticked mutations run in tick order, every promised tick is honoured
+		// before the drain ends, and an idle machine has an empty queue
+		var lastTick uint64
+		for li, o := range obs {
+			if !o.IsOp {
+				continue
+			}
+			if o.Crash != "" {
+				break
+			}
+			depth := 0
+			promised := map[uint64]bool{}
+			var inTx *Event
+			for i := range o.Events {
+				e := &o.Events[i]
+				switch e.Kind {
+				case "TI":
+					if depth != 0 {
+						add(li, "", "a transition started inside another one (nested instead of queued)")
+					}
+					depth++
+					inTx = e
+					if e.QTickMut > 0 {
+						if lastTick != 0 && e.QTickMut != lastTick+1 && !ci.faulty {
+							add(li, "", "queued mutations ran out of queue-tick order: tick %d after %d", e.QTickMut, lastTick)
+						}
+						lastTick = e.QTickMut
+						delete(promised, e.QTickMut)
+					}
+				case "TE":
+					depth--
+					inTx = nil
+				case "N":
+					if inTx == nil {
+						continue
+					}
+					if strings.HasPrefix(e.ResStr, "queued:") {
+						var tk uint64
+						fmt.Sscan(e.ResStr[7:], &tk)
+						promised[tk] = true
+					}
+				}
+			}
+			if ci.faulty || ci.disposes {
+				continue
+			}
+			for tk := range promised {
+				add(li, "", "a mutation issued inside a handler was promised queue tick %d, which was never processed", tk)
+			}
+			if o.QLen != 0 {
+				add(li, "", "the call returned on an idle machine with %d queued mutations left", o.QLen)
+			}
+			if lastTick != 0 && o.QTick < lastTick {
+				add(li, "", "machine queue tick %d is behind the last processed mutation tick %d", o.QTick, lastTick)
+			}
+		}
+		// WhenQueue(tick) closes once the tick has been processed (accepted or canceled)
+		for _, f := range Monitor("C06", c, sch, obs) {
+			if strings.HasPrefix(f.Msg, "WhenQueue(") {
+				f.Prop = "C04"
+				fails = append(fails, f)
 			}
 		}
 	case "C05":
